@@ -156,6 +156,7 @@ func compute(ic, sc *fg.Parsed) (*facts, error) {
 	f.bools["walkConfSortsParts"] = wc.sorts
 	f.bools["walkConfDelegatesToWalk"] = wc.delegates
 	f.bools["reloadListsApiserver"] = w.fn("listFloatingIPs").listsApiserver()
+	f.bools["reloadListIsConsistentRead"] = w.fn("listFloatingIPs").listIsConsistentRead()
 	usesWalkConf := true
 	for _, m := range []string{"AllocateInSubnetsAndIPRange", "ByKeyAndIPRanges", "NodeSubnetsByIPRanges"} {
 		fd := w.decl[m]
@@ -186,6 +187,7 @@ var boolOrder = []struct{ name, why string }{
 	{"walkConfDelegatesToWalk", "walkConfiguredIPRanges hands the parts to walkIPRanges, forwards the callback's verdict and stops when it stopped"},
 	{"requestsWalkConfigured", "AllocateInSubnetsAndIPRange, ByKeyAndIPRanges and NodeSubnetsByIPRanges walk requested ranges through walkConfiguredIPRanges only"},
 	{"reloadListsApiserver", "listFloatingIPs (ConfigurePool's view of the store) is a LIST against the API server, not an informer cache"},
+	{"reloadListIsConsistentRead", "that LIST carries empty ListOptions: a consistent read, never answered from the API server's watch cache"},
 }
 
 func genFrom(ic, sc *fg.Parsed) (string, error) {
